@@ -10,6 +10,7 @@ import (
 	"errors"
 	"fmt"
 	"os"
+	"sort"
 	"strings"
 	"sync/atomic"
 	"syscall"
@@ -557,6 +558,9 @@ func TestC01(t *testing.T) {
 		return
 	}
 	scs := scenarios()
+	// the pool works the scenarios off in this order: the small-bound ones first, so that a run that meets its deadline on a
+	// loaded machine has lost the tail of the big explorations (reported as not exhaustive), not the targeted scenarios
+	sort.SliceStable(scs, func(i, j int) bool { return scs[i].Bound < scs[j].Bound })
 	var gs []gosim.Scenario
 	for _, sc := range scs {
 		gs = append(gs, toScenario(sc))
